@@ -192,7 +192,8 @@ def run(prop, tier):
     r = C.rng(prop)
     maxn = 9 if quick else 14
     maxW = 4 if quick else 5
-    mr_grid = [None, 0.0, 0.04, 0.05, 0.15, 0.25, 0.3, 0.35, 0.7, 1.0, 5.0] if not quick else [None, 0.0, 0.05, 0.25, 0.3, 0.7, 5.0]
+    # incl. products t*rate that round() and int() treat differently (2.6, 7.5, 3.5) and banker's-rounding ties (0.5, 2.5)
+    mr_grid = [None, 0.0, 0.04, 0.05, 0.15, 0.25, 0.26, 0.3, 0.35, 0.7, 0.75, 1.0, 5.0] if not quick else [None, 0.0, 0.05, 0.25, 0.26, 0.3, 0.75, 5.0]
     tmpd = os.path.join(C.TMP, "%s_%d" % (prop, os.getpid()))
     os.makedirs(tmpd, exist_ok=True)
     cases, impl, meta, pcases = [], [], [], []
@@ -201,11 +202,14 @@ def run(prop, tier):
         files = {}
         for n in range(0, maxn + 1):
             for W in range(1, maxW + 1):
-                for H in [None] + list(range(1, W + 1)):
+                # "eq": hop_dur < block_dur in seconds but the same number of samples (overlapping reader with an empty overlap)
+                for Hsel in [None] + list(range(1, W + 1)) + ["eq"]:
                     for mr in mr_grid:
                         for record in ((False, True) if prop == "C10" else (True, False)):
-                            w, ch = FORMATS[(n + W + (H or 0)) % 3]
-                            kind = ("bytes", "raw", "wav")[(n * 7 + W * 3 + (H or 0) + (1 if record else 0)) % 3] if (n + W) % 2 == 0 else "bytes"
+                            H = W if Hsel == "eq" else Hsel
+                            Hn = H
+                            w, ch = FORMATS[(n + W + (Hn or 0)) % 3]
+                            kind = ("bytes", "raw", "wav")[(n * 7 + W * 3 + (Hn or 0) + (1 if record else 0)) % 3] if (n + W) % 2 == 0 else "bytes"
                             bps = w * ch
                             path = None
                             if kind != "bytes":
@@ -220,6 +224,8 @@ def run(prop, tier):
                                     files[key] = p
                                 path = files[key]
                             bd, hd = W / RATE, (None if H is None else H / RATE)
+                            if Hsel == "eq":
+                                bd, hd = (W + 0.5) / RATE, W / RATE
                             pc = (31, [RATE, C.fhex_me(bd), [] if hd is None else [C.fhex_me(hd)], [] if mr is None else [C.fhex_me(mr)]])
                             for ops in histories(prop, n, W, H, quick):
                                 if prop == "C19" and not record and len(ops) > 6:
